@@ -33,6 +33,8 @@ def families():
     F["harmonic_staged"] = (x0, "harmonic {\n name b\n colvars x0\n centers -1.0\n targetCenters 1.0\n targetNumSteps 4\n targetNumStages 4\n forceConstant 3.0\n}\n", {"dump": "r.dump b"})
     F["harmonic_k"] = (x0, "harmonic {\n name b\n colvars x0\n centers 0.2\n forceConstant 1.0\n targetForceConstant 5.0\n targetNumSteps 16\n outputAccumulatedWork on\n}\n", {"dump": "r.dump b"})
     F["harmonic_k_staged"] = (x0, "harmonic {\n name b\n colvars x0\n centers 0.2\n forceConstant 1.0\n targetForceConstant 5.0\n targetNumSteps 5\n targetNumStages 3\n targetEquilSteps 2\n}\n", {"dump": "r.dump b"})
+    # thermodynamic-integration samples collected by a restraint (count and total-force grids in the state)
+    F["harmonic_ti"] = (x0, "harmonic {\n name b\n colvars x0\n centers 0.4\n forceConstant 3.0\n writeTISamples on\n}\n", {"tf": True})
     F["walls"] = (x0, "harmonicWalls {\n name b\n colvars x0\n lowerWalls -0.5\n upperWalls 0.7\n forceConstant 4.0\n}\n", {})
     F["walls_k"] = (x0, "harmonicWalls {\n name b\n colvars x0\n lowerWalls -0.5\n upperWalls 0.7\n forceConstant 4.0\n targetForceConstant 0.5\n targetNumSteps 12\n outputAccumulatedWork on\n}\n", {"dump": "r.dump b"})
     F["linear"] = (x0, "linear {\n name b\n colvars x0\n centers 0.1\n forceConstant 2.0\n targetForceConstant 4.0\n targetNumSteps 10\n}\n", {})
